@@ -550,6 +550,9 @@ class Gen:
             if kind == "int":
                 lo, hi = sorted(r.sample([-10, 0, 1, 5, 100, 65535], 2))
                 mn, mx = str(lo), str(hi)
+                if r.random() < 0.25:
+                    # bounds that are present but falsy as Python values
+                    mn, mx = r.choice([("0", "0"), ("0", None), (None, "0"), ("-0", "0"), ("00", "0")])
             elif kind == "float":
                 mn, mx = r.choice([("0", "10.5"), ("-1.5", "2.5e3"), ("0.0", "100")])
             elif kind == "str":
@@ -557,7 +560,8 @@ class Gen:
             else:
                 a, b = sorted(r.sample(VALID_TEXT[text_kind(type_name)], 2))
                 mn, mx = a, b
-            v["range"] = [mn if r.random() < 0.9 else None, mx if r.random() < 0.9 else None, self.opt(lambda: "1", 0.5)]
+            v["range"] = [mn if mn is not None and r.random() < 0.9 else None, mx if mx is not None and r.random() < 0.9 else None,
+                          self.opt(lambda: "1", 0.5)]
         elif r.random() < 0.35 and not tz:
             k = r.randint(1, 4)
             v["allowed"] = [valid_text(r, type_name) for _ in range(k)]
